@@ -150,6 +150,7 @@ def run(pid):
     results = run_jobs(translate_job, jobs)
     with Scratch("C01") as sc:
         cov, vst = judge("C01", rep, results, sc)
+        vlog("judged", vst)
         # the AST passes as state transformers (spec/Trace_Passes.tla): for every failing program and a seeded
         # sample of the others, the first pass after which the reference meaning differs from the source's
         import random
@@ -160,6 +161,7 @@ def run(pid):
         chosen = [r for r in pool if r["src"] in failing] + [r for r in pool if r["src"] not in failing][: (150 if t == "quick" else 1500)]
         pcases = [dict(r["passes"], id=k) for k, r in enumerate(chosen)]
         pverd, _ = tlc.run_cases("Trace_Passes", pcases, sc, timeout=2400, heap="4g")
+        vlog("passes", len(pcases))
         pst, loc = {}, {}
         for k, r in enumerate(chosen):
             v = pverd[k]
